@@ -337,6 +337,8 @@ def run(chk, ctx) -> None:
     default_helpers(chk, ctx, 'C16.fields', ['notation'])
     no_format_specs(chk, ctx, 'C16.dump', [fgs] + [f for f in (hh.methods.get('dumps'), hh.methods.get('dump')) if f is not None])
     parse_value_helper(chk, ctx, 'C16.values')
+    from .helpers import hand_history_defaults
+    hand_history_defaults(chk, ctx, 'C16.fields')
     _fields(chk, ctx, hh, fgs)
     _replay(chk, ctx, hh)
     _dump(chk, ctx, hh)
